@@ -789,7 +789,6 @@ func corruptBlobs(m protoreflect.Message) int {
 	return n
 }
 
-
 // jsonEncodeBlobs re-encodes every event blob inside m as JSON (the other encoding the history serializer reads).
 func jsonEncodeBlobs(m protoreflect.Message) int {
 	n := 0
